@@ -594,11 +594,15 @@ func miscRules(c *Ctx, a *flAgg) {
 	} else {
 		a.und("RACE-israce", "Snapshot.IsRace", "not found", token.NoPos)
 	}
-	// PARSE-atou: the digit-count bound keeps the accumulated value below 2^(IntSize-1)
-	if f := c.L.Func("stack", "", "atou"); f != nil {
+	// PARSE-atou: which digit counts are accepted. The guard only looks at
+	// len(s), so it is evaluated for every length: all comparisons between
+	// (sums of) len(s) and constants are decided for a fixed length L, the
+	// digit tests are left open; L is accepted iff some path returns true.
+	// Required: accepted exactly for 1..18 digits (1..9 on 32-bit): fewer
+	// rejects ids the runtime can print (< 10^18, the property's range), more
+	// lets the accumulated value wrap to a negative int.
+	if f := c.L.Func("stack", "", "atou"); f != nil && len(f.Params) == 1 {
 		exprHome = f.Pkg.Pkg
-		x := &SPE{Fn: f, MaxVisits: 2}
-		x.Explore()
 		intSize := int64(64)
 		if strings.HasSuffix(c.Cfg, "/386") || strings.HasSuffix(c.Cfg, "/arm") {
 			intSize = 32
@@ -607,44 +611,109 @@ func miscRules(c *Ctx, a *flAgg) {
 		if intSize == 32 {
 			maxDigits = 9
 		}
-		okAll, nOK := true, 0
-		why := ""
-		for _, p := range x.Paths {
-			if p.Term != "return" || len(p.Results) != 2 {
-				continue
+		param := f.Params[0].Name()
+		var evalLen func(e *Expr, L int64) (int64, bool)
+		evalLen = func(e *Expr, L int64) (int64, bool) {
+			if e == nil {
+				return 0, false
 			}
-			if v, isC := p.Results[1].boolConst(); isC && !v {
-				continue
+			if k, ok := e.intConst(); ok {
+				return k, true
 			}
-			nOK++
-			// the first upper bound on len(s) on the path is the guard in front of
-			// the accumulation loop (later ones are the loop's own control)
-			bound := int64(-1)
-			for _, lt := range p.Lits {
-				at := lt.Atom
-				if at.Op != OpBin || at.Tok != token.LSS {
+			switch e.Op {
+			case OpBuiltin:
+				if e.Name == "len" && len(e.Args) == 1 && e.Args[0].String() == param {
+					return L, true
+				}
+			case OpBin:
+				if len(e.Args) == 2 && (e.Tok == token.ADD || e.Tok == token.SUB) {
+					a, ok1 := evalLen(e.Args[0], L)
+					b, ok2 := evalLen(e.Args[1], L)
+					if ok1 && ok2 {
+						if e.Tok == token.ADD {
+							return a + b, true
+						}
+						return a - b, true
+					}
+				}
+			}
+			return 0, false
+		}
+		accepts := func(L int64) (acc, und bool) {
+			// the accumulation loop runs L times: its control is decided too
+			mv := L
+			if mv > 40 {
+				mv = 40
+			}
+			x := &SPE{Fn: f, MaxVisits: int(mv) + 2}
+			x.Decide = func(atom *Expr, _ *pathState) (bool, bool) {
+				if atom.Op != OpBin || len(atom.Args) != 2 {
+					return false, false
+				}
+				a, ok1 := evalLen(atom.Args[0], L)
+				b, ok2 := evalLen(atom.Args[1], L)
+				if !ok1 || !ok2 {
+					return false, false
+				}
+				switch atom.Tok {
+				case token.LSS:
+					return a < b, true
+				case token.EQL:
+					return a == b, true
+				}
+				return false, false
+			}
+			x.Explore()
+			n := 0
+			for _, p := range x.Paths {
+				if p.Term != "return" || len(p.Results) != 2 {
+					if p.Term != "return" {
+						und = true
+					}
 					continue
 				}
-				if k, ok := at.Args[1].intConst(); ok && at.Args[0].Op == OpBuiltin && at.Args[0].Name == "len" && lt.Pol {
-					bound = k - 1 // len < K
-					break
+				n++
+				if v, isC := p.Results[1].boolConst(); isC && !v {
+					continue
 				}
-				if k, ok := at.Args[0].intConst(); ok && at.Args[1].Op == OpBuiltin && at.Args[1].Name == "len" && !lt.Pol && k > 1 {
-					bound = k // !(K < len)
-					break
-				}
+				acc = true
 			}
-			if bound < 0 || bound > maxDigits {
-				okAll = false
-				why = fmt.Sprintf("a number of up to %d digits is accepted; more than %d digits can exceed the %d-bit int and wrap to a negative value (ids, line numbers and sleep minutes are then negative; a negative line number indexes the line table)", bound, maxDigits, intSize)
+			if x.Truncated > 0 {
+				// the guard let this length through and the loop outran the bound
+				acc = true
+			}
+			if n == 0 && !acc {
+				und = true
+			}
+			return
+		}
+		var wrongLow, wrongHigh []int64
+		und := false
+		lens := []int64{}
+		for L := int64(0); L <= 40; L++ {
+			lens = append(lens, L)
+		}
+		lens = append(lens, 64, 100, 1000, 1<<20)
+		for _, L := range lens {
+			acc, u := accepts(L)
+			und = und || u
+			want := L >= 1 && L <= maxDigits
+			if acc && !want {
+				wrongHigh = append(wrongHigh, L)
+			}
+			if !acc && want {
+				wrongLow = append(wrongLow, L)
 			}
 		}
-		if nOK > 0 && okAll {
-			a.ok("PARSE-atou", "atou", fmt.Sprintf("atou accepts at most %d digits, so the accumulated value cannot overflow a %d-bit int: results are non-negative", maxDigits, intSize), f.Pos())
-		} else if nOK == 0 {
-			a.und("PARSE-atou", "atou", "no successful path found", f.Pos())
-		} else {
-			a.bad("PARSE-atou", "atou", why, f.Pos())
+		switch {
+		case und:
+			a.und("PARSE-atou", "atou", "a path of atou does not return, or no path was found", f.Pos())
+		case len(wrongHigh) > 0:
+			a.bad("PARSE-atou", "atou", fmt.Sprintf("numbers of %v digits are accepted; more than %d digits (or none) can exceed the %d-bit int and wrap to a negative value (ids, line numbers and sleep minutes are then negative) or yield a number from no digits", wrongHigh, maxDigits, intSize), f.Pos())
+		case len(wrongLow) > 0:
+			a.bad("PARSE-atou", "atou", fmt.Sprintf("numbers of %v digits are rejected although they fit a %d-bit int: goroutine ids up to 10^%d-1 (the runtime prints 64-bit ids) are no longer parsed and their goroutines are dropped", wrongLow, intSize, maxDigits), f.Pos())
+		default:
+			a.ok("PARSE-atou", "atou", fmt.Sprintf("atou accepts exactly 1..%d digits (decided for every length 0..40 and beyond): every id below 10^%d parses and the accumulated value cannot overflow a %d-bit int", maxDigits, maxDigits, intSize), f.Pos())
 		}
 	}
 	// PARSE-funcinit
